@@ -1087,6 +1087,9 @@ fn random_field(rng: &mut Rng, name: Option<&str>, messy: bool) -> FieldSpec {
     let mut pool = field_spellings();
     if messy {
         pool.push(occ("bogus", "bogus", true));
+        for t in ["::skip", "::rename = \"q\"", "::default", "::multiple", "skip::x"] {
+            pool.push(occ("bogus", t, true));
+        }
         // a literal where an option belongs is not an option either
         pool.push(occ("@literal", "\"stray\"", true));
         pool.push(occ("@literal", "7", true));
@@ -1128,6 +1131,10 @@ fn random_decl(rng: &mut Rng) -> Decl {
     if messy_container {
         cpool.push(occ("@literal", "\"stray\"", true));
         cpool.push(occ("@literal", "true", true));
+        // an option's name behind a leading `::` (or another segment) is not that option
+        for t in ["::default", "::rename_all = \"snake_case\"", "::allow_unknown_fields", "::bound = \"T: Clone\"", "::map = \"f\"", "x::default"] {
+            cpool.push(occ("bogus", t, true));
+        }
     }
     if !messy_container {
         cpool.retain(|o| known(tr, Level::Container, o.name) && !o.text.contains("bogus") && !o.text.contains("struct_struct") && !o.text.contains("enum_enum"));
@@ -1210,6 +1217,8 @@ fn random_decl(rng: &mut Rng) -> Decl {
                 let mut pool = vpool_clean.clone();
                 if messy_v {
                     pool.push(occ("bogus", "bogus", true));
+                    pool.push(occ("bogus", "::skip", true));
+                    pool.push(occ("bogus", "::word", true));
                     pool.push(occ("@literal", "\"stray\"", true));
                     pool.push(occ("flatten", "flatten", true));
                 }
